@@ -27,7 +27,7 @@ Document universe D (verif.props.c06_docs; plain-JSON specs, bytes depend on the
     set-ordered collection of 5 distinct members has 120 orders, so an order dependence survives all seeds only by coincidence
     (stated, not exhaustive).
 
-Space `configurations` (clauses hashseed / repeat / reuse-buffer / fresh-process / input-mutated).  Every configuration is a NEW interpreter
+Space `configurations` (clauses hashseed / repeat / reuse-buffer / path-history / fresh-process / input-mutated).  Every configuration is a NEW interpreter
 (subprocess, PYTHONHASHSEED in its start environment - os.environ changes after start have no effect on str hashing; the
 worker reports hash("verif-c06") and the run fails as harness error unless the probes of different seeds differ; it also reports
 where it would import the library from, and the run fails as harness error unless that is the tree the harness interpreter
@@ -47,6 +47,11 @@ judges - PYTHONPATH is handed on, so `PYTHONPATH=<tree> ./check C06` judges <tre
                  order - at its first pass (history: the canonical prefix of D) and (d) at its second pass (history: all of D,
                  every format, every encryption form, every failing input).  reexec compares a new process with a warm process
                  that has extracted the quick universe.
+  path-history   (seed-0 process of the sweep, every document that extracts) four more extractions of the same bytes in the same
+                 process: with the path, with path=None, with ANOTHER path (other folder, other file name, same extension) and
+                 with path=None again.  Every one of the four results, dumped again at the end, gives the to_json() it gave
+                 right after its own extraction (no later extraction rewrites an earlier result - e.g. through a metadata
+                 object shared between results), and the two path=None results agree (the paths seen before are not an input)
   input-mutated  the caller's BytesIO holds the same bytes afterwards (a closed buffer counts as lost content); the stream
                  position the library leaves behind is recorded, not judged
 Space `histories` (clause history; explicit-state exploration).  Base observers: full_text, units (iterate_units + every
@@ -75,7 +80,7 @@ includes to_json() unchanged, and idempotence o;o).  State changes that no obser
 not judged.  Closure: when no new state appears at the last explored length, the reachable set is closed and the oracle
 holds for histories of any length (as far as the snapshot captures the result's state).
 
-A case is {"cfg": "seeds"|"repeat"|"reuse"|"fresh"|"input"|"hist", "doc": spec, ["hist": [observer...]], ["where": abstract JSON
+A case is {"cfg": "seeds"|"repeat"|"reuse"|"paths"|"fresh"|"input"|"hist", "doc": spec, ["hist": [observer...]], ["where": abstract JSON
 path at which the two values differ]}.  One failure is reported per (document, differing location), so that every shape
 shrinks to the smallest document showing that one difference.
 """
@@ -103,7 +108,7 @@ PY = "/venv/bin/python"
 SEEDS = {"quick": [0, 1, 2, 3], "thorough": list(range(16))}
 ALL_SEEDS = list(range(16))          # reexec (replay / shrinking) always uses the full seed set: fingerprints do not depend on the tier
 DEPTH = {"quick": 2, "thorough": 3}
-CLAUSE_OF = {"seeds": "hashseed", "repeat": "repeat", "reuse": "reuse-buffer", "fresh": "fresh-process", "input": "input-mutated", "hist": "history"}
+CLAUSE_OF = {"seeds": "hashseed", "repeat": "repeat", "reuse": "reuse-buffer", "paths": "path-history", "fresh": "fresh-process", "input": "input-mutated", "hist": "history"}
 
 
 # ------------------------------------------------------------------------------------------- configuration processes
@@ -179,7 +184,7 @@ def _build_task(arg):
     return out
 
 
-def _sweep_one(seed, items, base, once=False, passes=1):
+def _sweep_one(seed, items, base, once=False, passes=1, paths=False):
     """one new interpreter: `passes` sweeps over `items` (once: every document extracted exactly once per pass).
     -> (seed, hello, results of the last pass, error, results of the earlier passes)"""
     p = Proc(seed, base)
@@ -187,7 +192,7 @@ def _sweep_one(seed, items, base, once=False, passes=1):
         hello = p.request({"op": "hello"}, 120)
         earlier = []
         for _ in range(passes):
-            ans = p.request({"op": "sweep", "items": items, "once": int(once)}, 3000)
+            ans = p.request({"op": "sweep", "items": items, "once": int(once), "paths": int(paths)}, 3000)
             earlier.append(ans["results"])
         return seed, hello, earlier.pop(), None, earlier
     except Exception as e:  # noqa
@@ -324,6 +329,21 @@ def check_reuse(spec, seed=0):
     return out
 
 
+def check_paths(spec, seed=0):
+    """-> {where: message}: path histories in one process (worker op `paths`): extraction with the path, with path=None, with another
+    path and with path=None again; every earlier result must still dump what it dumped, the two path=None results must agree"""
+    path, name, _ = _stage_spec(spec)
+    ans = _rx_proc(seed).request({"op": "paths", "file": path, "name": name}, 600)
+    out = {}
+    for lab, a, b in ans.get("bad", []):
+        for w in O.where_set(a, b):
+            x, y = O.first_diff(a, b, w)
+            what = ("the result of an EARLIER extraction (%s) changed after later extractions of the same bytes with other paths" % lab.split(":")[1]
+                    if lab.startswith("earlier") else "extraction with path=None before and after an extraction with another path")
+            out.setdefault(w, f"{D.spec_key(spec)}: {what} differs at {w}: {x} vs {y}")
+    return out
+
+
 def check_fresh(spec, seed=0):
     """-> {where: message}: first extraction of a new process vs extraction in a process of the same seed that has extracted
     every document of the quick universe before (the warm process)"""
@@ -400,6 +420,8 @@ def reexec(fmt, case):
         found = check_fresh(spec)
     elif cfg == "reuse":
         found = check_reuse(spec)
+    elif cfg == "paths":
+        found = check_paths(spec)
     elif cfg == "hist":
         found = check_history(spec, case["hist"])
     else:
@@ -624,7 +646,7 @@ def _run(ctx, tier, seeds, specs, by_key, herr, fails, stage):
     with ThreadPoolExecutor(max_workers=ncpu) as ex:
         # the warm process: ONE new interpreter (seed 0) extracts all of D once in canonical order, then all of D once more
         warm_f = ex.submit(_sweep_one, 0, items, base, True, 2)
-        sweep = list(ex.map(lambda j: _sweep_one(j[0], j[1], base), jobs))
+        sweep = list(ex.map(lambda j: _sweep_one(j[0], j[1], base, paths=(j[0] == seeds[0])), jobs))
         _t("sweep done")
         fresh = list(ex.map(lambda j: _sweep_one(j[0], j[1], base, True), fresh_jobs))
         warm = warm_f.result()
@@ -671,7 +693,7 @@ def _run(ctx, tier, seeds, specs, by_key, herr, fails, stage):
         if any(r["in"] != insha[key] for r in rs.values()):
             herr.append(f"document {key}: configurations did not read the same input bytes")
             continue
-        evaluations += 3 * len(rs)
+        evaluations += 3 * len(rs) + (4 if str(rs.get(seeds[0], {}).get("d1", "")).startswith("ok:") else 0)      # + the path history
         ds = {s: r["d1"] for s, r in rs.items()}
         if any(d == "timeout" for d in ds.values()):
             herr.append(f"document {key}: extraction exceeded 120 s")
@@ -704,6 +726,13 @@ def _run(ctx, tier, seeds, specs, by_key, herr, fails, stage):
             if not found:
                 fails.append(("reuse-buffer", fmt, {"cfg": "reuse", "doc": spec, "where": None},
                               f"{key}: extraction from the re-used buffer differed in the sweep but not when repeated"))
+        if any(r.get("dp") for r in rs.values()):
+            found = check_paths(spec, min(s for s, r in rs.items() if r.get("dp")))
+            for w, m in sorted(found.items()):
+                fails.append(("path-history", fmt, {"cfg": "paths", "doc": spec, "where": w}, m))
+            if not found:
+                fails.append(("path-history", fmt, {"cfg": "paths", "doc": spec, "where": None},
+                              f"{key}: a path history differed in the sweep ({[r.get('dp') for r in rs.values()]}) but not when repeated"))
         if any(r["mut"] for r in rs.values()):
             m = check_input(spec) or f"{key}: the caller's buffer was changed in a configuration process ({[r['mut'] for r in rs.values()]})"
             fails.append(("input-mutated", fmt, {"cfg": "input", "doc": spec}, m))
